@@ -1080,8 +1080,9 @@ class CFG:
                     body_component = body_component[5:-1]
                 else:
                     type_component = ""
-                if body_component[0] in string.ascii_uppercase or \
-                        type_component == "VAR":
+                if type_component != "TER" and (
+                        body_component[0] in string.ascii_uppercase or
+                        type_component == "VAR"):
                     body_var = Variable(body_component)
                     variables.add(body_var)
                     body.append(body_var)
